@@ -107,7 +107,7 @@ def run_sequences(ctx, V, n_random, n_ops):
         W, ops, rec = cw.random_run(random.Random(seed), n_ops, fault_rate=0.4 if i % 2 else 0.25)
         batch.append(('random:seed=%d' % seed, ops, rec, W))
     n_raise = 0
-    CH = 60
+    CH = 100
     broken = []
     for k in range(0, len(batch), CH):
         chunk = batch[k:k + CH]
@@ -282,12 +282,12 @@ def run(ctx):
     ctx.notes['translator'] = 'not used: Model/Build.v is hand-written (T-corr); tied by the per-call differential'
     r = ctx.prove(['Properties/C11.v'])
     V = Verdicts()
-    n_random, n_ops = (32, 30) if ctx.quick else (900, 36)
+    n_random, n_ops = (64, 30) if ctx.quick else (900, 36)
     import traceback
     wit = {'F1_evicts': False, 'F1_replaces': False, 'F2_inout': False}
     for phase, fn in (('sequences', lambda: run_sequences(ctx, V, n_random, n_ops)),
                       ('exhaustive pairs', (lambda: None) if ctx.quick else (lambda: run_pairs(ctx, V))),
-                      ('library', lambda: run_library(ctx, V, widths_per_block=2 if ctx.quick else 6, all_inputs=not ctx.quick)),
+                      ('library', lambda: run_library(ctx, V, widths_per_block=3 if ctx.quick else 6, all_inputs=not ctx.quick)),
                       ('refutation witnesses', lambda: wit.update(replay_refutations(ctx)))):
         try:
             fn()
